@@ -604,3 +604,132 @@ func VfC04Honest() {
 }
 
 var vfSFaulty bool
+
+// ---- both ends dial each other at the same time -------------------------------------------
+
+type vfXEnd struct {
+	e     *vfSEnd
+	inbox []int // pool indices waiting, in wire order
+	peer  *vfXEnd
+	dead  bool // aborted: its connection is closed, nothing more is handled
+	done  int  // messages handled
+	fin   bool // finalize ran (handleSetup calls it once the handshake completed, before AddLink)
+	link  *state.EncryptionSession
+	ferr  error
+}
+
+func (x *vfXEnd) finalize() {
+	if !x.fin {
+		x.fin = true
+		x.link, x.ferr = x.e.st.finalize()
+	}
+}
+
+// VfC04CrossDial: no attacker; two honest routers V and P dial EACH OTHER at
+// about the same time, so two connections run their handshakes concurrently
+// (conn 1: V is the client; conn 2: P is the client). Each connection delivers
+// its frames in order, but the two handshakes interleave arbitrarily at each
+// router (each router handles its two connections on different goroutines);
+// operations at different routers commute, so a schedule is the order in which
+// V serves its two connections plus the order in which P does. Whatever the
+// schedule: nothing panics, and a connection on which BOTH ends complete names
+// the right peer on both sides and derives matching link keys ("when both ends
+// complete ... traffic sealed by either link end unseals at the other").
+func VfC04CrossDial() {
+	vfSSigs, vfSToks, vfSDigests, vfSGuesses, vfSPool = nil, nil, nil, nil, nil
+	vfSTick, vfSChallenges = 0, nil
+	state.VfClock = vfSNow
+	V, P := vfSNewRouter(vfSV, "", ""), vfSNewRouter(vfSP, "", "")
+	v1, p1 := &vfXEnd{e: vfSStart(V, true)}, &vfXEnd{e: vfSStart(P, false)}
+	v2, p2 := &vfXEnd{e: vfSStart(V, false)}, &vfXEnd{e: vfSStart(P, true)}
+	v1.peer, p1.peer, v2.peer, p2.peer = p1, v1, p2, v2
+	for _, x := range []*vfXEnd{v1, p1, v2, p2} {
+		x.peer.inbox = append(x.peer.inbox, x.e.reqN)
+	}
+	routers := [2][2]*vfXEnd{{v1, v2}, {p1, p2}}
+	// the order in which each router serves its two connections is chosen step by step
+	var want [2]int // per router: which of its ends is served next (-1: not chosen yet)
+	want[0], want[1] = -1, -1
+	for steps := 0; steps < 12; steps++ {
+		progressed := false
+		for ri := 0; ri < 2; ri++ {
+			a, b := routers[ri][0], routers[ri][1]
+			aLeft := !a.dead && a.done < 3
+			bLeft := !b.dead && b.done < 3
+			if !aLeft && !bLeft {
+				continue
+			}
+			if want[ri] < 0 {
+				switch {
+				case aLeft && bLeft:
+					want[ri] = vf.Choose(2)
+				case aLeft:
+					want[ri] = 0
+				default:
+					want[ri] = 1
+				}
+			}
+			x := routers[ri][want[ri]]
+			if x.dead || x.done >= 3 {
+				want[ri] = -1
+				progressed = true
+				continue
+			}
+			if len(x.inbox) == 0 {
+				continue // this router waits for the frame it decided to serve next
+			}
+			n := x.inbox[0]
+			x.inbox = x.inbox[1:]
+			before := len(vfSPool)
+			if !vfSDeliver(x.e, vfSPool[n].data) {
+				x.dead = true
+				// the connection is closed: the other end sees EOF and stops too
+				x.peer.dead = true
+				vf.Reach("connection-aborted")
+			} else {
+				x.done++
+				if len(vfSPool) > before {
+					x.peer.inbox = append(x.peer.inbox, len(vfSPool)-1)
+				}
+				// its setup goroutine goes on to finalize right away, or only after the
+				// other connection's handlers have run
+				if x.e.st.step == 4 && vf.Bool() {
+					x.finalize()
+				}
+			}
+			want[ri] = -1
+			progressed = true
+		}
+		if !progressed {
+			break
+		}
+	}
+	// schedules in which a router insists on a frame that never comes are not executions
+	for _, x := range []*vfXEnd{v1, p1, v2, p2} {
+		vf.Assume(x.dead || x.done == 3 || len(x.inbox) == 0)
+	}
+	completed := 0
+	for _, c := range [2][2]*vfXEnd{{v1, p1}, {v2, p2}} {
+		a, b := c[0], c[1]
+		if a.dead || b.dead || a.e.st.step != 4 || b.e.st.step != 4 {
+			continue
+		}
+		completed++
+		vf.Assert(a.e.st.remoteIP == P.w.own && b.e.st.remoteIP == V.w.own, "ends-name-somebody-else")
+		a.finalize()
+		b.finalize()
+		if a.ferr != nil || b.ferr != nil {
+			// finalize refuses (e.g. the key exchange state is gone): no link comes up on that end
+			vf.Reach("finalize-refused")
+			continue
+		}
+		ain, aout, _ := a.link.VfKeys()
+		bin, bout, _ := b.link.VfKeys()
+		vf.Assert(aout == bin && bout == ain && ain != aout, "cross-dial-link-keys-do-not-match")
+		vf.Reach("connection-completed")
+	}
+	if completed == 2 {
+		vf.Reach("both-connections-completed")
+	}
+	vf.Reach("done")
+}
